@@ -93,7 +93,12 @@ let () = iter_lines (fun line ->
                 fh_q = { Vp8Syntax.q_base = z0; q_y1dc = z0; q_y2dc = z0; q_y2ac = z0; q_uvdc = z0; q_uvac = z0 };
                 fh_probs = []; fh_skip_enabled = false; fh_skip_prob = z0 } in
       for seg = 0 to 3 do
+        let sv = int_of_string (Stdlib.List.nth [s0; s1; s2; s3] seg) in
+        (* segment-adjusted level outside 0..63 before the deltas: the single- and double-clamp readings
+           differ (stream class midclamp); the harness prints "x" there and so do both sides here *)
+        let excluded = useseg = "1" && abs <> "1" && (level + sv < 0 || level + sv > 63) in
         Stdlib.List.iter (fun is4 ->
+          if excluded then begin Buffer.add_string bi "x "; Buffer.add_string bs "x " end else
           let ((a, b), c) = if level = 0 then ((z0, z0), z0) else Vp8Kernels.go_fstrength h (z_of_int seg) is4 in
           Buffer.add_string bi (Printf.sprintf "%s.%s.%s " (string_of_z a) (string_of_z b) (string_of_z c));
           let p = Vp8Kernels.lf_mb_params false h (z_of_int seg) is4 in
